@@ -35,7 +35,9 @@ class _Cexptrk_Potential_Function(object):
 
   def __call__(self, *args):
     parameter_names = self._potential_form_tuple.signature.parameter_names
-    assert len(args) == len(parameter_names)
+    if len(args) != len(parameter_names):
+      sig = "{}({})".format(self._potential_form_tuple.signature.label, ",".join(parameter_names))
+      raise Potential_Form_Exception("potential-form '{}' requires {} arguments but was called with {}".format(sig, len(parameter_names), len(args)))
     for (pn, v) in zip(parameter_names, args):
       self._local_symbol_table.variables[pn] = v
 
